@@ -114,6 +114,10 @@ class BodyGen:
                 if rhs.startswith("-"):
                     rhs = self.group(rhs)
                 out += f" {op} {rhs}"
+            if op in ("<<", ">>", "_"):
+                # '+' and '-' bind tighter than the shifts: close the shift so that a later '- x' cannot
+                # become part of the shift count (3 << 1 - big is 3 << (1 - big): astronomically large)
+                out = self.group(out)
         return out
 
     def atom_nochar(self):
@@ -205,6 +209,24 @@ class BodyGen:
         """returns (text, nbytes_parity_safe)"""
         r = self.r
         c = r.random()
+        if c < 0.06:
+            # directives outside Model/TreeCache (metamorphic comparison only)
+            self.feat.add("other-directive")
+            k = r.randrange(7)
+            if k == 0:
+                return f'.ascii "ab"<{self.group(self.expr(1, True))} & 177>\n.even'
+            if k == 1:
+                return f'.asciz /x/<{self.lit(r.randrange(128))}>\n.even'
+            if k == 2:
+                return f".blkb {self.group(self.expr(1, True))} & 7\n.even"
+            if k == 3:
+                return f".align {self.lit(r.choice([2, 4, 8, 16]))}"
+            if k == 4:
+                return ".odd\n.byte 1"
+            if k == 5:
+                return f". = . + {self.lit(r.choice([0, 2, 4, 10]))}"
+            self.feat.add("bad-octal")
+            return f".word {r.choice(['8', '19', '78'])} + ."
         if c < 0.3:
             return f"{r.choice(TWO_RM)} {self.rm()}, {self.rm()}"
         if c < 0.45:
